@@ -729,6 +729,19 @@ impl Kanata {
         Ok(())
     }
 
+    /// A key press cancels macros that were started with macro-cancel-on-press.
+    fn cancel_macros_on_press(&mut self) {
+        if self.macro_on_press_cancel_duration > 0 {
+            log::debug!("cancelling all macros: other press");
+            self.macro_on_press_cancel_duration = 0;
+            let layout = self.layout.bm();
+            layout.active_sequences.clear();
+            layout.states.retain(|s| {
+                !matches!(s, State::FakeKey { .. } | State::RepeatingSequence { .. })
+            });
+        }
+    }
+
     /// Update keyberon layout state for press/release, handle repeat separately
     pub fn handle_input_event(&mut self, event: &KeyEvent) -> Result<()> {
         log::debug!("process recv ev {event:?}");
@@ -743,15 +756,7 @@ impl Kanata {
                 ) {
                     self.dynamic_macros.insert(macro_id, recorded_macro);
                 }
-                if self.macro_on_press_cancel_duration > 0 {
-                    log::debug!("cancelling all macros: other press");
-                    self.macro_on_press_cancel_duration = 0;
-                    let layout = self.layout.bm();
-                    layout.active_sequences.clear();
-                    layout.states.retain(|s| {
-                        !matches!(s, State::FakeKey { .. } | State::RepeatingSequence { .. })
-                    });
-                }
+                self.cancel_macros_on_press();
                 Event::Press(0, evc)
             }
             KeyValue::Release => {
@@ -846,6 +851,11 @@ impl Kanata {
                 &mut self.dynamic_macro_replay_state,
                 self.dynamic_macro_replay_behaviour,
             ) {
+                // A replayed key press is a key press: like a typed one it cancels macros
+                // started with macro-cancel-on-press.
+                if matches!(event.key_event(), Event::Press(..)) {
+                    self.cancel_macros_on_press();
+                }
                 self.layout.bm().event(event.key_event());
                 extra_ticks = extra_ticks.saturating_add(event.delay());
                 log::debug!("dyn macro extra ticks: {extra_ticks}, ms_elapsed: {ms_elapsed}");
